@@ -48,6 +48,12 @@ VALID = [
     "options.get('comma_first') in [True, False]",
     "options.get('compact') in [True, False]",
     "options.get('right_margin') is None or (isinstance(options.get('right_margin'), int) and options.get('right_margin') >= 10)",
+    # what build_filter_stack and the indent filters rely on (cooperating sites): both indent filters run on whitespace-
+    # normalised trees only (they delete the whitespace in front of a split keyword and add their own line break), and
+    # indent_columns is a mode of reindent
+    "options.get('strip_whitespace') == True if options.get('reindent') == True else True",
+    "options.get('strip_whitespace') == True if options.get('reindent_aligned') == True else True",
+    "options.get('reindent') == True if options.get('indent_columns') == True else True",
 ]
 
 
